@@ -83,6 +83,8 @@ class LazyList:
                 position.stop,
                 position.step or 1,
             )
+            if step < 0:
+                return LazyList(self.listify()[start:stop:step])
             if stop is None:
 
                 @lazylist
@@ -95,10 +97,6 @@ class LazyList:
                 return infinite_index()
             else:
                 ret = []
-                if step < 0:
-                    return LazyList(
-                        itertools.islice(self.listify(), start, stop, step)
-                    )
                 if stop < 0:
                     stop = len(self) + stop
                 for i in range(start or 0, stop, step):
